@@ -33,100 +33,166 @@ def resolver(F):
     return bs[0]
 
 
-def tag_owner_of(F, body, op):
-    """Which gherkin owner's `tags` does this operand (or the closure it is) read?"""
-    owners = set()
-    kb = A.closure_of_operand(F, body, op)
-    if kb is not None:
-        for nb in F.nested(kb):
-            for _, st in nb.assigns():
-                for pl in A.rvalue_places(st["rv"]):
-                    for o, n in place_fields(pl):
-                        if n == "tags" and o.startswith("gherkin::"):
-                            owners.add(o)
-        return owners
-    sl = A.slice_back(body, [op], stop_calls=[r"Option::<.*>::or_else$", r"Option::<.*>::or$"])
-    return tags.fields_read_deep(F, body, sl)
+LOOKUP_TY = "std::option::Option<(std::option::Option<usize>, std::option::Option<std::time::Duration>)>"
+_RT = {}
 
 
-def or_chain(F, body, op):
-    """Operands, in priority order, of a chain `a.or_else(b).or_else(c)` / `.or(..)` whose value is `op`."""
-    l = op_local(op)
-    if l is None:
-        return [op]
-    cp = A.canon_place(body, {"l": l, "p": []})
-    sd = body.single_def(cp["l"]) if not cp["p"] else None
-    if sd and sd[1] == "call" and callee_is(sd[2], r"Option::<.*>::(or_else|or)$"):
-        return or_chain(F, body, sd[2]["args"][0]) + [sd[2]["args"][1]]
-    return [op]
+class ResolverTable:
+    """Deep path table of RetryOptions::parse_from_tags with the tag-parsing routine (whatever closure / helper fn returns
+    Option<(Option<usize>, Option<Duration>)>) and TagOperation::eval kept opaque."""
+
+    def __init__(self, F):
+        from . import deep as D
+        self.D = D
+        self.F = F
+        self.b = b = resolver(F)
+        fam = roles.family(F, b)
+        # (it takes the tags: closures like `|| rule.and_then(..)` that merely pass a lookup's result on do not)
+        cands = [x for x in fam if x is not b and x.locals[0] == LOOKUP_TY and
+                 any("String" in ty or "str" in ty for ty in x.locals[(2 if x.kind == "Closure" else 1):x.arg_count + 1])]
+        if not cands:
+            raise Unverifiable("tag lookup routine of the retry resolver (returns Option<(Option<usize>, Option<Duration>)>)")
+        self.lookup_names = {x.name for x in cands}
+        opq = "^(" + "|".join(re.escape(n) for n in sorted(self.lookup_names)) + r")$|tag::Ext::eval$"
+        self.dp = D.Deep(F, b, max_paths=6000, opaque=opq)
+        self.paths = self.dp.run()
+        if not self.paths or any(p.cut for p in self.paths):
+            raise Unverifiable("retry resolver: empty path table or a loop outside the tag lookup routine")
+        # parameters by type
+        self.param = {}
+        for i in range(1, b.arg_count + 1):
+            ty = b.locals[i]
+            if "gherkin::Scenario" in ty:
+                self.param["Scenario"] = i
+            elif "gherkin::Rule" in ty:
+                self.param["Rule"] = i
+            elif "gherkin::Feature" in ty:
+                self.param["Feature"] = i
+            elif "runner::basic::Cli" in ty:
+                self.param["Cli"] = i
+        if set(self.param) != {"Scenario", "Rule", "Feature", "Cli"}:
+            raise Unverifiable(f"parameters of the retry resolver: {sorted(self.param)}")
+        a = F.adts.get(("cucumber", "runner::basic::Cli"))
+        self.cli_idx = {f["name"]: i for i, f in enumerate(a["variants"][0]["fields"])}
+
+    def cli(self, name):
+        return ("field", ("deref", ("arg", self.param["Cli"])), self.cli_idx[name])
+
+    def lookups(self, p):
+        """[(index, owner, call term)] of the tag lookups performed on path p, in order."""
+        D = self.D
+        out = []
+        for i, e in enumerate(p.effects):
+            if e[0] == "call" and (e[1] in self.lookup_names or (e[1].startswith("closure:") and e[1][8:] in self.lookup_names)):
+                owners = set()
+                for x in D.subterms(e[2]):
+                    if x[0] == "arg":
+                        for k, pi in self.param.items():
+                            if pi == x[1] and k != "Cli":
+                                owners.add(k)
+                out.append((i, "+".join(sorted(owners)), ("call", e[1], e[2], e[4])))
+        return out
+
+    def outcome(self, p, term):
+        for a, o in p.conds:
+            if a == ("discr", term):
+                return o
+        return None
+
+    def found(self, p):
+        ls = self.lookups(p)
+        for i, owner, t in ls:
+            if self.outcome(p, t) == "Some":
+                return owner, t
+        return None, None
+
+
+def rtable(F):
+    if id(F) not in _RT:
+        _RT.clear()
+        _RT[id(F)] = ResolverTable(F)
+    return _RT[id(F)]
 
 
 def r1(F, R):
-    b = resolver(F)
-    # the argument of the final apply_cli call
-    calls = [(s, t) for s, t in b.calls(lambda t: callee_is(t, r"ops::Fn::call$"))]
-    last = [x for x in calls if b.locals[x[1]["dest"]["l"]] == f"std::option::Option<{RO}>"]
-    if len(last) != 1:
-        raise Unverifiable("apply_cli call")
-    s, t = last[0]
-    tup = b.single_def(op_local(t["args"][1]))
-    arg = tup[2]["rv"]["ops"][0]
-    ops = or_chain(F, b, arg)
-    owners = [sorted(o.split("::")[1] for o in tag_owner_of(F, b, o)) for o in ops]
-    R.check(owners == [["Scenario"], ["Rule"], ["Feature"]], "nearest-tag-wins", s, "scenario tags, else rule tags, else feature tags",
-            f"retry tags are looked up in the order {owners}; expected scenario, rule, feature")
-    # every operand is produced by the same tag parser
+    """Nearest tag wins: on every path the lookups happen in the order scenario, rule (if any), feature; a later one only
+    after the earlier ones found nothing; and the options of the first hit are the ones used."""
+    T = rtable(F)
+    D = T.D
+    ok, why, seen = True, "", set()
+    for p in T.paths:
+        ls = T.lookups(p)
+        owners = [o for _, o, _ in ls]
+        want = ["Scenario", "Rule", "Feature"]
+        rule_some = T.outcome(p, ("arg", T.param["Rule"]))
+        exp = [w for w in want if not (w == "Rule" and rule_some == "None")]
+        if owners != exp[:len(owners)]:
+            ok, why = False, f"retry tags are looked up in the order {owners}; expected scenario, rule, feature"
+        for k, (i, o, t) in enumerate(ls[:-1]):
+            if T.outcome(p, t) != "None":
+                ok, why = False, f"the {ls[k + 1][1]} tags are consulted although the {o} tags already had a retry tag"
+        owner, t = T.found(p)
+        if owner:
+            seen.add(owner)
+            if D.is_variant(p.ret, "std::option::Option", "Some"):
+                pay = ("field", ("as", t, "Some"), 0)
+                others = [t2 for _, o2, t2 in ls if t2 != t]
+                if any(D.mentions(p.ret, lambda x, t2=t2: x == t2) for t2 in others):
+                    ok, why = False, "options of a farther tag are used although a nearer one was found"
+        elif len(owners) < len(exp):
+            ok, why = False, f"only {owners} tags are consulted before falling back to the CLI options"
+    R.check(ok and seen == {"Scenario", "Rule", "Feature"}, "nearest-tag-wins", T.b, "scenario tags, else rule tags, else feature tags", why or f"hits seen only at {sorted(seen)}")
     R.floor(1)
 
 
-def apply_cli(F):
-    b = resolver(F)
-    ks = [nb for nb in F.nested(b) if nb is not b and nb.kind == "Closure" and nb.locals[0] == f"std::option::Option<{RO}>"]
-    if len(ks) != 1:
-        raise Unverifiable("apply_cli closure")
-    return ks[0]
-
-
 def r2(F, R):
-    k = apply_cli(F)
-    builds = [(nb, s, st) for nb in F.nested(k) for s, st in nb.assigns(lambda st: st["rv"]["k"] == "agg" and st["rv"].get("adt") == RO)]
-    if len(builds) != 1:
-        raise Unverifiable("RetryOptions aggregate in apply_cli")
-    nb, s, st = builds[0]
-    f = dict(zip(st["rv"]["fields"], st["rv"]["ops"]))
-    # retries: Retries::initial(<count>)
-    ch = A.receiver_chain(nb, f["retries"])
-    ok_c = False
-    if ch and callee_is(ch[0][1], r"Retries::initial$"):
-        cnt = A.receiver_chain(nb, ch[0][1]["args"][0])
-        names = [callee_path(c).rsplit("::", 1)[-1] for _, c in cnt]
-        if names[:3] == ["unwrap_or", "or", "and_then"]:
-            dflt = const_int(cnt[0][1]["args"][1])
-            cli_f = A.deep_slice(F, nb, [cnt[1][1]["args"][1]]).fields
-            tag_k = A.closure_of_operand(F, nb, cnt[2][1]["args"][1])
-            first = tag_k is not None and _tuple_index_returned(tag_k) == 0
-            ok_c = dflt == 1 and ("runner::basic::Cli", "retry") in cli_f and ("runner::basic::Cli", "retry_after") not in cli_f and first
-    R.check(ok_c, "count-tag-cli-one", s, "tag count .or(cli.retry) .unwrap_or(1)", "the retry count is not `tag value, else --retry, else 1`")
-    ch = A.receiver_chain(nb, f["after"])
-    names = [callee_path(c).rsplit("::", 1)[-1] for _, c in ch]
-    ok_a = False
-    if names[:2] == ["or", "and_then"]:
-        cli_f = A.deep_slice(F, nb, [ch[0][1]["args"][1]]).fields
-        tag_k = A.closure_of_operand(F, nb, ch[1][1]["args"][1])
-        ok_a = ("runner::basic::Cli", "retry_after") in cli_f and ("runner::basic::Cli", "retry") not in cli_f and tag_k is not None and _tuple_index_returned(tag_k) == 1
-    R.check(ok_a, "delay-tag-cli", s, "tag delay .or(cli.retry_after)", "the retry delay is not `tag value, else --retry-after`")
+    """count = tag value, else --retry, else 1; delay = tag value, else --retry-after — on the resolver's path table."""
+    T = rtable(F)
+    D = T.D
+    okc, oka, whyc, whya, n = True, True, "", "", 0
+    for p in T.paths:
+        if not D.is_variant(p.ret, "std::option::Option", "Some"):
+            continue
+        ro = p.ret[3][0]
+        if not (D.is_variant(ro, RO) and len(ro[3]) == 2 and D.is_variant(ro[3][0], "event::Retries")):
+            okc, whyc = False, "the result is not RetryOptions { retries: Retries { .. }, after }"
+            continue
+        n += 1
+        rt = ro[3][0]
+        flds = {f["name"]: i for i, f in enumerate(F.adts[("cucumber", "event::Retries")]["variants"][0]["fields"])}
+        left, cur = rt[3][flds["left"]], rt[3][flds["current"]]
+        after = ro[3][1]
+        owner, t = T.found(p)
+        tagc = tagd = None
+        if t is not None:
+            pay = ("field", ("as", t, "Some"), 0)
+            tagc, tagd = ("field", pay, 0), ("field", pay, 1)
+        tc_out = T.outcome(p, tagc) if tagc else None
+        cli_r, cli_a = T.cli("retry"), T.cli("retry_after")
+        if tagc is not None and tc_out is None:
+            okc, whyc = False, "a retry tag was found but its count is not looked at before the CLI value / default is used"
+        if tc_out == "Some":
+            want_left = ("field", ("as", tagc, "Some"), 0)
+        elif T.outcome(p, cli_r) == "Some":
+            want_left = ("field", ("as", cli_r, "Some"), 0)
+        elif T.outcome(p, cli_r) == "None":
+            want_left = ("const", 1)
+        else:
+            want_left = None
+        if left != want_left or cur != ("const", 0):
+            okc, whyc = False, f"count is {D.fmt(T.b, left)[:60]} (current {D.fmt(T.b, cur)[:10]}) where `tag value, else --retry, else 1` gives {D.fmt(T.b, want_left)[:60] if want_left else '?'}"
+        td_out = T.outcome(p, tagd) if tagd else None
+        if tagd is not None and td_out is None:
+            oka, whya = False, "a retry tag was found but its delay is not looked at before the CLI value is used"
+        if td_out == "Some":
+            want_after = (tagd, D.Deep.some(("field", ("as", tagd, "Some"), 0)))
+        else:
+            want_after = (cli_a,)
+        if after not in want_after:
+            oka, whya = False, f"delay is {D.fmt(T.b, after)[:60]} where `tag value, else --retry-after` is expected"
+    R.check(okc and n >= 4, "count-tag-cli-one", T.b, "tag count .or(cli.retry) .unwrap_or(1)", "the retry count is not `tag value, else --retry, else 1`" + (": " + whyc if whyc else ""))
+    R.check(oka and n >= 4, "delay-tag-cli", T.b, "tag delay .or(cli.retry_after)", "the retry delay is not `tag value, else --retry-after`" + (": " + whya if whya else ""))
     R.floor(2)
-
-
-def _tuple_index_returned(kb):
-    """For a closure `|(a, b)| a` / `|(_, b)| b`: index of the tuple component it returns."""
-    sl = A.slice_back(kb, start_locals=[0])
-    idx = set()
-    for pl in sl.places:
-        for e in pl["p"]:
-            if isinstance(e, dict) and "f" in e and e["o"] == "{tuple}":
-                idx.add(e["f"])
-    return idx.pop() if len(idx) == 1 else None
 
 
 def r3(F, R):
@@ -160,48 +226,53 @@ def r3(F, R):
 
 
 def r4(F, R):
-    k = apply_cli(F)
-    thens = [(s, t) for s, t in k.calls(lambda t: callee_is(t, r"bool>::then$", r"::then$") and k.locals[op_local(t["args"][0])] == "bool")]
-    if len(thens) != 1:
-        raise Unverifiable("`(..).then(..)` in apply_cli")
-    s, t = thens[0]
-    cond = op_local(t["args"][0])
-    cond = A.canon_place(k, {"l": cond, "p": []})["l"]
-    ds = k.defs.get(cond, [])
-    consts = [(s2, p) for s2, kk, p in ds if kk == "assign" and p["rv"]["k"] == "use" and const_int(p["rv"]["op"]) == 1]
-    copies = [(s2, p) for s2, kk, p in ds if kk == "assign" and p["rv"]["k"] == "use" and op_local(p["rv"]["op"]) is not None]
-    ok = len(ds) == 2 and len(consts) == 1 and len(copies) == 1
-    matched = None
-    if ok:
-        g = [g for g in A.guards_of(k, consts[0][0]) if g.cond_def() and g.cond_def()[0] == "call" and callee_is(g.cond_def()[2], r"Option::<.*>::is_some$") and g.polarity() is True]
-        ok = len(g) == 1 and 2 in A.slice_back(k, [g[0].cond_def()[2]["args"][0]]).params
-        matched = op_local(copies[0][1]["rv"]["op"])
-    R.check(ok, "some-iff-tag-or-matched", s, "(options.is_some() || matched).then(..)", "the resolver's result is not Some exactly when a retry tag was found or the CLI/filter matched")
-    if matched is None:
-        return
-    sd = k.single_def(A.canon_place(k, {"l": matched, "p": []})["l"])
-    okm = bool(sd and sd[1] == "call" and callee_is(sd[2], r"Option::<.*>::map_or_else$"))
-    R.check(okm, "matched-shape", s, "retry_tag_filter.map_or_else(no-filter, filter)", "`matched` is not computed from retry_tag_filter with a no-filter fallback")
-    if okm:
-        tm = sd[2]
-        recv = A.deep_slice(F, k, [tm["args"][0]]).fields
-        R.check(("runner::basic::Cli", "retry_tag_filter") in recv, "matched-on-filter", sd[0], "", "the decision does not consult retry_tag_filter")
-        kn = A.closure_of_operand(F, k, tm["args"][1])
-        ks = A.closure_of_operand(F, k, tm["args"][2])
-        # no filter: retry.is_some() || retry_after.is_some()
-        okn = False
-        if kn is not None:
-            fl = set()
-            for _, c in kn.calls(lambda c: callee_is(c, r"Option::<.*>::is_some$")):
-                fl |= {n for o, n in A.deep_slice(F, kn, [c["args"][0]]).fields if o == "runner::basic::Cli"}
-            okn = fl == {"retry", "retry_after"}
-        R.check(okn, "no-filter-needs-retry-config", kn or sd[0], "cli.retry.is_some() || cli.retry_after.is_some()", "without a filter, an untagged scenario is (not) retried regardless of --retry / --retry-after")
-        if ks is not None:
-            evs = [(s2, c) for s2, c in ks.calls(lambda c: callee_is(c, r"tag::Ext::eval$"))]
-            R.check(len(evs) == 1, "filter-evaluated", ks, "", f"{len(evs)} eval calls")
+    """The resolver answers Some exactly when a retry tag was found, or — without one — the filter matched (filter given) /
+    `--retry` or `--retry-after` is set (no filter); the filter is evaluated on scenario ∪ rule ∪ feature tags."""
+    T = rtable(F)
+    D = T.D
+    ok, why = True, ""
+    n_f = n_nf = 0
+    ev_terms = set()
+    for p in T.paths:
+        is_some = D.is_variant(p.ret, "std::option::Option", "Some")
+        owner, t = T.found(p)
+        filt = T.outcome(p, T.cli("retry_tag_filter"))
+        evs = [("call", e[1], e[2], e[4]) for e in p.effects if e[0] == "call" and re.search(r"tag::Ext>?::eval$", e[1])]
+        matched = None
+        if filt == "Some":
             if len(evs) == 1:
-                tags.check_tag_union(F, R, ks, evs[0][1]["args"][1], "filter-tags", evs[0][0], "retry filter tag")
-    R.floor(6)
+                ev_terms.add(evs[0])
+                mv = [o for a, o in p.conds if a == evs[0]]
+                matched = mv[0] if mv else None
+                n_f += 1
+        elif filt == "None":
+            r_, a_ = T.outcome(p, T.cli("retry")), T.outcome(p, T.cli("retry_after"))
+            if r_ == "Some" or a_ == "Some":
+                matched = True
+            elif r_ == "None" and a_ == "None":
+                matched = False
+            n_nf += 1
+        if owner:
+            if not is_some:
+                ok, why = False, "a scenario with a retry tag gets no retry options"
+        else:
+            if matched is None:
+                if filt is None:
+                    ok, why = False, "without a retry tag the decision does not consult retry_tag_filter"
+                else:
+                    ok, why = False, "without a retry tag the decision is not `filter matched` / `--retry or --retry-after set`"
+            elif is_some != matched:
+                ok, why = False, f"without a retry tag the resolver answers {'Some' if is_some else 'None'} although matched = {matched}"
+    R.check(ok, "some-iff-tag-or-matched", T.b, "(options.is_some() || matched).then(..)", "the resolver's result is not Some exactly when a retry tag was found or the CLI/filter matched" + (": " + why if why else ""))
+    R.check(n_f >= 1, "matched-on-filter", T.b, "", "the decision never evaluates retry_tag_filter")
+    R.check(n_nf >= 1, "no-filter-needs-retry-config", T.b, "cli.retry.is_some() || cli.retry_after.is_some()", "no path handles the absence of a filter")
+    # the tags the filter is evaluated on: the eval call site in the resolver's family
+    sites = [(nb, s2, c) for nb in roles.family(F, T.b) for s2, c in nb.calls(lambda c: callee_is(c, r"tag::Ext::eval$"))]
+    R.check(len(sites) == 1, "filter-evaluated", T.b, "", f"{len(sites)} eval calls")
+    if len(sites) == 1:
+        nb, s2, c = sites[0]
+        tags.check_tag_union(F, R, nb, c["args"][1], "filter-tags", s2, "retry filter tag")
+    R.floor(5)
 
 
 def r5(F, R):
